@@ -358,6 +358,46 @@ def rule_contracts(evs):
     return f"{n} drawn values checked against their contracts; fuzz calls by status {fz}"
 
 
+MIN_TRACE_CFG = """SPECIFICATION TSpec
+CONSTANTS
+  Design = "code"
+  W = 8
+  Property = "%s"
+CONSTANT Cond <- CondSet
+CONSTRAINT HW
+POSTCONDITION Accepted
+CHECK_DEADLOCK FALSE
+"""
+
+
+def minimizer_conformance(binary, wd, tier, seed):
+    """C12: the real block minimizer against its transcription (MinimizeTrace): an exhaustive threshold sweep in the harness and
+    recorded calls with arbitrary conditions recomputed by TLC.  Returns (validation result, summary for the evidence)."""
+    rng = random.Random(seed + 12)
+    ncalls, nproc = (1500, 4) if tier == "quick" else (40000, 16)
+    sc = [{"id": "c12-minimizer-%d" % j, "w": (11 if tier == "quick" else 13) if j == 0 else 0, "calls": ncalls // nproc, "seed": rng.randrange(1, 1 << 62)}
+          for j in range(nproc)]
+    import concurrent.futures as cf
+
+    def one(j):
+        outp = os.path.join(wd, f"min{j}.ndjson")
+        core.run_harness(binary, [sc[j]], outp, "", mode="minimize", timeout=3000)
+        return outp
+    with cf.ThreadPoolExecutor(max_workers=nproc) as ex:
+        paths = list(ex.map(one, range(nproc)))
+    val = props.validate_parallel("MinimizeTrace", MIN_TRACE_CFG % "C12", paths)
+    sweep = {}
+    calls = 0
+    for pth in paths:
+        for line in open(pth):
+            if '"min.sweep"' in line:
+                e = json.loads(line)
+                sweep = {"width": e["w"], "pairs": e["pairs"], "queries": e["queries"], "mismatches": len(e["mismatches"])}
+            elif '"min.call"' in line:
+                calls += 1
+    return val, {"minimizer_threshold_sweep": sweep, "minimizer_calls_recomputed_by_tlc": calls}, sc
+
+
 def generic_run(pid, tier, seed, replay, keep, scenarios, rule, rule_text, assumptions, mc, extra_cov=None, mode="scenarios", level="exploration",
                 events=None):
     events = events or GEN_EVENTS
@@ -384,6 +424,15 @@ def generic_run(pid, tier, seed, replay, keep, scenarios, rule, rule_text, assum
             shutil.copytree(wd, "/tmp/keep-" + pid, dirs_exist_ok=True)
         val = props.validate_parallel("GenTrace", GEN_CFG % pid, paths)
         cov = props.scan_traces(paths, rule)
+        if pid == "C12" and not replay:
+            mval, mcov, msc = minimizer_conformance(binary, wd, tier, seed)
+            val["violations"] += mval["violations"]
+            val["binding_lost"] = sorted(set(val["binding_lost"]) | set(mval["binding_lost"]))
+            for key in ("scenarios", "lines", "tlc_states"):
+                val[key] += mval[key]
+            for m_ in msc:
+                by_id[m_["id"]] = m_
+            extra_cov = dict(extra_cov or {}, **mcov)
     finally:
         shutil.rmtree(wd, ignore_errors=True)
     known, new = core.classify(pid, val["violations"])
